@@ -244,7 +244,21 @@ def _shard(args):
                 'cov_hit': (changecov.hits(core.REPO) if cov else []),
                 'distinct': len(set((c[0], c[1]) for c in ctx.cases))}
     except Exception:
-        return {'ok': False, 'error': traceback.format_exc()}
+        tb = traceback.format_exc()
+        # an exception that comes out of the implementation while the harness is driving it with inputs of the
+        # property's domain is a finding about the implementation, not an infrastructure error
+        frames = traceback.extract_tb(sys.exc_info()[2])
+        in_impl = bool(frames) and os.path.realpath(frames[-1].filename).startswith(os.path.realpath(core.REPO) + os.sep)
+        if in_impl:
+            where = [f for f in frames if not os.path.realpath(f.filename).startswith(os.path.realpath(core.REPO) + os.sep)]
+            at = '%s:%d %s' % (os.path.basename(where[-1].filename), where[-1].lineno, (where[-1].line or '')[:120]) if where else '?'
+            fail = {'predicate': 'implementation_raised_in_domain', 'input': [at], 'detail': tb[-1500:], 'class': 'harness'}
+            return {'ok': True, 'mism': [], 'n_mism': 0, 'stats': {'F_lines': 0, 'Q_lines': 0}, 'pred_fail': [fail],
+                    'n_pred_fail': 1, 'known_counts': {}, 'overflow': 0, 'pred_count': 1, 'pred_classes': {'harness': 1},
+                    'case_classes': {}, 'n_cases': 0, 'samples': [], 'max_dev': {}, 'exhaustive': False,
+                    'notes': ['shard %d stopped: the implementation raised inside the harness at %s' % (shard, at)],
+                    'cov_hit': [], 'distinct': 0}
+        return {'ok': False, 'error': tb}
 
 
 def run_harness(prop, tier, seed, scale, hot):
